@@ -97,10 +97,11 @@ Proof.
   replace ((mt * 32 + N.of_nat ai) / 32) with mt by lia.
   replace ((mt * 32 + N.of_nat ai) mod 32) with (N.of_nat ai) by lia.
   replace (8 <=? mt) with false by lia. replace (N.of_nat ai <? 24) with false by lia.
-  destruct Hk as [[-> ->]|[[-> ->]|[[-> ->]|[-> ->]]]]; cbv beta iota;
-    match goal with |- context [take ?c _] =>
-      rewrite (take_app_n (be_bytes _ n) c r) by (rewrite be_bytes_length; reflexivity) end;
-    rewrite be_val_be_bytes; reflexivity.
+  replace (N.of_nat ai =? 31) with false by lia. replace (28 <=? N.of_nat ai) with false by lia.
+  assert (Hal : arg_len (N.of_nat ai) = N.of_nat (length (be_bytes k n))).
+  { rewrite be_bytes_length. unfold arg_len.
+    destruct Hk as [[-> ->]|[[-> ->]|[[-> ->]|[-> ->]]]]; reflexivity. }
+  rewrite Hal, take_app, be_val_be_bytes. reflexivity.
 Qed.
 
 Lemma head_round mt n r : mt < 8 -> n < TWO64 ->
@@ -292,3 +293,583 @@ Proof.
   - constructor; [|apply be_bytes_ok]. unfold byte_ok, float_ai.
     destruct w as [|[[[]|[]|]|[[]|[]|]|]]; lia.
 Qed.
+
+(** * Round trip *)
+Definition pair_enc (kv : cbor * cbor) : bytes := let (k, x) := kv in cbor_encode k ++ cbor_encode x.
+
+Lemma dec_items_encode d l :
+  Forall (fun v => forall r, d (cbor_encode v ++ r) = Some (v, r)) l ->
+  forall r, dec_items d (length l) (flat_map cbor_encode l ++ r) = Some (l, r).
+Proof.
+  induction 1 as [|x l Hx _ IH]; intros r; cbn [length flat_map dec_items app]; [reflexivity|].
+  rewrite <- app_assoc, Hx, IH. reflexivity.
+Qed.
+
+Lemma dec_pairs_encode d (l : list (cbor * cbor)) :
+  Forall (fun kv => (forall r, d (cbor_encode (fst kv) ++ r) = Some (fst kv, r))
+                    /\ (forall r, d (cbor_encode (snd kv) ++ r) = Some (snd kv, r))) l ->
+  forall r, dec_pairs d (length l) (flat_map pair_enc l ++ r) = Some (l, r).
+Proof.
+  induction 1 as [|[k x] l [Hk Hx] _ IH]; intros r; cbn [length flat_map dec_pairs app pair_enc fst snd] in *; [reflexivity|].
+  rewrite <- !app_assoc, Hk, Hx, IH. reflexivity.
+Qed.
+
+Lemma depth_arr_bound l f :
+  (fold_right (fun x m => Nat.max (depth x) m) O l < f)%nat -> Forall (fun x => (depth x < f)%nat) l.
+Proof.
+  induction l as [|x l IH]; cbn [fold_right]; intros H; constructor; [lia|apply IH; lia].
+Qed.
+
+Lemma depth_map_bound (l : list (cbor * cbor)) f :
+  (fold_right (fun (kv : cbor * cbor) m => let (k, x) := kv in Nat.max (Nat.max (depth k) (depth x)) m) O l < f)%nat ->
+  Forall (fun kv => (depth (fst kv) < f)%nat /\ (depth (snd kv) < f)%nat) l.
+Proof.
+  induction l as [|[k x] l IH]; cbn [fold_right fst snd]; intros H; constructor; [cbn [fst snd]; lia|apply IH; lia].
+Qed.
+
+Lemma bignum_shape_first t b p : bignum_shape t b = Some p -> exists x r0, b = x :: r0 /\ x / 32 = 2.
+Proof.
+  unfold bignum_shape. destruct ((t =? 2) || (t =? 3)); [|discriminate].
+  destruct b as [|x r0]; [discriminate|]. intros H. exists x, r0. split; [reflexivity|].
+  unfold head_decode in H.
+  destruct (8 <=? x / 32); [discriminate|].
+  destruct (x mod 32 <? 24).
+  { destruct (N.eqb_spec (x / 32) 2) as [E|E]; [exact E|discriminate]. }
+  destruct (x mod 32 =? 31); [discriminate|].
+  destruct (28 <=? x mod 32); [discriminate|].
+  destruct (take (arg_len (x mod 32)) r0) as [[a r']|]; [|discriminate].
+  destruct (N.eqb_spec (x / 32) 2) as [E|E]; [exact E|discriminate].
+Qed.
+
+Lemma strip_zeros_id s : hd 0 s =? 0 = false -> strip_zeros s = s.
+Proof. destruct s as [|x s]; [reflexivity|]. cbn [hd strip_zeros]. intros H. destruct x; [discriminate|reflexivity]. Qed.
+
+Theorem decode_encode : forall v r fuel, cbor_wf v = true -> (depth v < fuel)%nat ->
+  cbor_decode fuel (cbor_encode v ++ r) = Some (v, r).
+Proof.
+  induction v as [z|b|b|l IH|l IH|t x IH|b| | |n|w bits] using cbor_ind'; intros r fuel Hwf Hd;
+    (destruct fuel as [|f]; [lia|]); cbn [cbor_encode cbor_wf depth] in *.
+  - (* CInt *)
+    destruct z as [|p|p]; cbn [cbor_decode]; rewrite head_round by (unfold TWO64; lia); cbv beta iota;
+      repeat f_equal; lia.
+  - (* CBytes *)
+    apply andb_true_iff in Hwf as [_ Hl]. unfold len_ok in Hl.
+    rewrite <- app_assoc. cbn [cbor_decode]. rewrite head_round by lia. cbv beta iota.
+    rewrite take_app. reflexivity.
+  - (* CText *)
+    apply andb_true_iff in Hwf as [Hu Hl]. unfold len_ok in Hl.
+    rewrite <- app_assoc. cbn [cbor_decode]. rewrite head_round by lia. cbv beta iota.
+    rewrite take_app, Hu. reflexivity.
+  - (* CArr *)
+    apply andb_true_iff in Hwf as [Hall Hl]. unfold len_ok in Hl.
+    rewrite <- app_assoc. cbn [cbor_decode]. rewrite head_round by lia. cbv beta iota.
+    destruct f as [|f']; [lia|]. cbv beta iota.
+    pose proof (flat_map_encode_length l) as Hlen.
+    replace (N.of_nat (length (flat_map cbor_encode l ++ r)) <? N.of_nat (length l)) with false
+      by (rewrite app_length; lia).
+    rewrite Nat2N.id, dec_items_encode; [reflexivity|].
+    apply Nat.succ_lt_mono in Hd. apply depth_arr_bound in Hd. rewrite forallb_forall in Hall. rewrite Forall_forall in *.
+    intros v Hv r0. apply IH; [exact Hv|apply Hall, Hv|apply Hd, Hv].
+  - (* CMap *)
+    apply andb_true_iff in Hwf as [Hall Hl]. unfold len_ok in Hl.
+    rewrite <- app_assoc. cbn [cbor_decode]. rewrite head_round by lia. cbv beta iota.
+    destruct f as [|f']; [lia|]. cbv beta iota.
+    pose proof (flat_map_pairs_length l) as Hlen.
+    match goal with |- context [flat_map ?g l] => change g with pair_enc in * end.
+    replace (N.of_nat (length (flat_map pair_enc l ++ r)) <? N.of_nat (length l)) with false
+      by (rewrite app_length; lia).
+    rewrite Nat2N.id, dec_pairs_encode; [reflexivity|].
+    apply Nat.succ_lt_mono in Hd. apply depth_map_bound in Hd. rewrite forallb_forall in Hall. rewrite Forall_forall in *.
+    intros [k v] Hv. specialize (Hall _ Hv). cbn beta iota in Hall. apply andb_true_iff in Hall as [Hk Hx].
+    destruct (IH _ Hv) as [IHk IHx]. destruct (Hd _ Hv) as [Dk Dx]. cbn [fst snd] in *.
+    split; intros r0; [apply IHk|apply IHx]; assumption.
+  - (* CTag *)
+    apply andb_true_iff in Hwf as [Hwf Htag]. apply andb_true_iff in Hwf as [Ht Hx].
+    rewrite <- app_assoc. cbn [cbor_decode]. rewrite head_round by lia. cbv beta iota.
+    destruct (bignum_shape t (cbor_encode x ++ r)) as [[len r1]|] eqn:Eb.
+    + (* the bignum path: only a normalised bignum gets here *)
+      pose proof Eb as Efirst. apply bignum_shape_first in Efirst as (y & r0 & Ey & Hy).
+      destruct (encode_first x) as (y' & t' & Ey' & Hy'). rewrite Ey' in Ey. cbn [app] in Ey.
+      injection Ey as <- _. rewrite Hy in Hy'.
+      destruct x as [z|s|s|l|l|t2 x2|b| | |n|w bits]; try (cbn [major_of] in Hy'; discriminate).
+      { destruct z; cbn [major_of] in Hy'; discriminate. }
+      cbn [cbor_encode cbor_wf tag_ok] in *. apply andb_true_iff in Hx as [_ Hl]. unfold len_ok in Hl.
+      unfold bignum_shape in Eb. destruct ((t =? 2) || (t =? 3)) eqn:Et; [|discriminate].
+      rewrite <- app_assoc, head_round in Eb by lia.
+      destruct (N.of_nat (length s) <=? 16) eqn:E16; [|discriminate]. injection Eb as <- <-.
+      rewrite take_app. cbn [andb] in Htag.
+      replace (length s <=? 16)%nat with true in Htag by lia.
+      apply andb_true_iff in Htag as [Htag H3]. apply andb_true_iff in Htag as [H9 H0].
+      apply negb_true_iff in H0. rewrite (strip_zeros_id s H0).
+      replace (length s <=? 8)%nat with false by lia.
+      apply negb_true_iff in H3. rewrite H3. reflexivity.
+    + destruct f as [|f']; [lia|]. rewrite IH by (assumption || lia). reflexivity.
+  - destruct b; reflexivity.
+  - reflexivity.
+  - discriminate.
+  - discriminate.
+  - (* CFloat *)
+    unfold float_ok, TWO16, TWO32, TWO64 in Hwf.
+    destruct w as [|[[[[]|[]|]|[[]|[]|]|]|[[[]|[]|]|[[]|[]|]|]|]]; try discriminate;
+      cbn [float_ai float_len app]; cbn [cbor_decode].
+    + change (224 + 27) with (7 * 32 + N.of_nat 27). rewrite (head_decode_ext 7 27 8 bits r) by (auto; lia). cbv beta iota.
+      change (256 ^ N.of_nat 8) with 18446744073709551616. rewrite N.mod_small by lia. reflexivity.
+    + change (224 + 26) with (7 * 32 + N.of_nat 26). rewrite (head_decode_ext 7 26 4 bits r) by (auto; lia). cbv beta iota.
+      change (256 ^ N.of_nat 4) with 4294967296. rewrite N.mod_small by lia. reflexivity.
+    + change (224 + 25) with (7 * 32 + N.of_nat 25). rewrite (head_decode_ext 7 25 2 bits r) by (auto; lia). cbv beta iota.
+      change (256 ^ N.of_nat 2) with 65536. rewrite N.mod_small by lia. reflexivity.
+Qed.
+
+Corollary decode_encode_read v : cbor_wf v = true -> (depth v < cbor_fuel)%nat -> cbor_read (cbor_encode v) = Some v.
+Proof.
+  intros Hw Hd. unfold cbor_read. rewrite <- (app_nil_r (cbor_encode v)), decode_encode by assumption. reflexivity.
+Qed.
+
+Corollary encode_prefix_free v w r s : cbor_wf v = true -> cbor_wf w = true ->
+  cbor_encode v ++ r = cbor_encode w ++ s -> v = w /\ r = s.
+Proof.
+  intros Hv Hw E.
+  pose proof (decode_encode v r (S (Nat.max (depth v) (depth w))) Hv ltac:(lia)) as D1.
+  pose proof (decode_encode w s (S (Nat.max (depth v) (depth w))) Hw ltac:(lia)) as D2.
+  rewrite E, D2 in D1. injection D1 as -> ->. split; reflexivity.
+Qed.
+
+Corollary encode_inj v w : cbor_wf v = true -> cbor_wf w = true -> cbor_encode v = cbor_encode w -> v = w.
+Proof.
+  intros Hv Hw E. apply (encode_prefix_free v w [] [] Hv Hw). rewrite !app_nil_r. exact E.
+Qed.
+
+(** * The decoder consumes a non-empty prefix of its input *)
+Definition consumes (b r : bytes) : Prop := exists u, b = u ++ r /\ u <> [].
+Definition suffix (b r : bytes) : Prop := exists u, b = u ++ r.
+
+Lemma consumes_suffix b r : consumes b r -> suffix b r.
+Proof. intros (u & -> & _). exists u. reflexivity. Qed.
+Lemma suffix_refl b : suffix b b.
+Proof. exists []. reflexivity. Qed.
+Lemma suffix_trans a b c : suffix a b -> suffix b c -> suffix a c.
+Proof. intros (u & ->) (w & ->). exists (u ++ w). rewrite app_assoc. reflexivity. Qed.
+Lemma consumes_suffix_trans a b c : consumes a b -> suffix b c -> consumes a c.
+Proof.
+  intros (u & -> & Hu) (w & ->). exists (u ++ w). rewrite app_assoc. split; [reflexivity|].
+  destruct u; [congruence|discriminate].
+Qed.
+Lemma suffix_consumes_trans a b c : suffix a b -> consumes b c -> consumes a c.
+Proof.
+  intros (u & ->) (w & -> & Hw). exists (u ++ w). rewrite app_assoc. split; [reflexivity|].
+  destruct u; [exact Hw|discriminate].
+Qed.
+Lemma consumes_trans a b c : consumes a b -> consumes b c -> consumes a c.
+Proof. intros H1 H2. eapply consumes_suffix_trans; [exact H1|apply consumes_suffix, H2]. Qed.
+Lemma consumes_cons x r : consumes (x :: r) r.
+Proof. exists [x]. split; [reflexivity|discriminate]. Qed.
+Lemma consumes_length b r : consumes b r -> (length r < length b)%nat.
+Proof. intros (u & -> & Hu). rewrite app_length. destruct u; [congruence|cbn [length]; lia]. Qed.
+Lemma take_suffix n b a r : take n b = Some (a, r) -> suffix b r.
+Proof. intros H. apply take_spec in H as [-> _]. exists a. reflexivity. Qed.
+
+Lemma head_decode_spec b mt ai arg r : head_decode b = Some (mt, ai, arg, r) ->
+  mt < 8 /\ ai < 32 /\ consumes b r.
+Proof.
+  unfold head_decode. destruct b as [|x r0]; [discriminate|].
+  destruct (N.leb_spec 8 (x / 32)) as [H8|H8]; [discriminate|].
+  assert (Hai : x mod 32 < 32) by lia.
+  destruct (x mod 32 <? 24). { intros H. injection H as <- <- <- <-. auto using consumes_cons. }
+  destruct (x mod 32 =? 31). { intros H. injection H as <- <- <- <-. auto using consumes_cons. }
+  destruct (28 <=? x mod 32); [discriminate|].
+  destruct (take (arg_len (x mod 32)) r0) as [[a r']|] eqn:Et; [|discriminate].
+  intros H. injection H as <- <- <- <-. split; [exact H8|]. split; [exact Hai|].
+  eapply consumes_suffix_trans; [apply consumes_cons|eapply take_suffix, Et].
+Qed.
+
+Lemma is_break_spec b r : is_break b = Some r -> b = 255 :: r.
+Proof.
+  unfold is_break. destruct b as [|x r0]; [discriminate|].
+  destruct (N.eqb_spec x 255) as [->|]; [|discriminate]. intros H. injection H as <-. reflexivity.
+Qed.
+
+Section ItemsConsume.
+  Variable d : bytes -> option (cbor * bytes).
+  Hypothesis Hd : forall b v r, d b = Some (v, r) -> consumes b r.
+
+  Lemma dec_items_suffix cnt : forall b l r, dec_items d cnt b = Some (l, r) -> suffix b r.
+  Proof.
+    induction cnt as [|c IH]; intros b l r H; cbn [dec_items] in H.
+    - injection H as <- <-. apply suffix_refl.
+    - destruct (d b) as [[v r0]|] eqn:E; [|discriminate].
+      destruct (dec_items d c r0) as [[l' r']|] eqn:E2; [|discriminate]. injection H as <- <-.
+      eapply suffix_trans; [apply consumes_suffix, (Hd _ _ _ E)|apply (IH _ _ _ E2)].
+  Qed.
+
+  Lemma dec_pairs_suffix cnt : forall b l r, dec_pairs d cnt b = Some (l, r) -> suffix b r.
+  Proof.
+    induction cnt as [|c IH]; intros b l r H; cbn [dec_pairs] in H.
+    - injection H as <- <-. apply suffix_refl.
+    - destruct (d b) as [[k r0]|] eqn:E; [|discriminate].
+      destruct (d r0) as [[v r1]|] eqn:E1; [|discriminate].
+      destruct (dec_pairs d c r1) as [[l' r']|] eqn:E2; [|discriminate]. injection H as <- <-.
+      eapply suffix_trans; [apply consumes_suffix, (Hd _ _ _ E)|].
+      eapply suffix_trans; [apply consumes_suffix, (Hd _ _ _ E1)|apply (IH _ _ _ E2)].
+  Qed.
+
+  Lemma dec_items_indef_consumes k : forall b l r, dec_items_indef d k b = Some (l, r) -> consumes b r.
+  Proof.
+    induction k as [|k IH]; intros b l r H; cbn [dec_items_indef] in H; [discriminate|].
+    destruct (is_break b) as [r0|] eqn:Eb.
+    - injection H as <- <-. apply is_break_spec in Eb as ->. apply consumes_cons.
+    - destruct (d b) as [[v r0]|] eqn:E; [|discriminate].
+      destruct (dec_items_indef d k r0) as [[l' r']|] eqn:E2; [|discriminate]. injection H as <- <-.
+      eapply consumes_trans; [apply (Hd _ _ _ E)|apply (IH _ _ _ E2)].
+  Qed.
+
+  Lemma dec_pairs_indef_consumes k : forall b l r, dec_pairs_indef d k b = Some (l, r) -> consumes b r.
+  Proof.
+    induction k as [|k IH]; intros b l r H; cbn [dec_pairs_indef] in H; [discriminate|].
+    destruct (is_break b) as [r0|] eqn:Eb.
+    - injection H as <- <-. apply is_break_spec in Eb as ->. apply consumes_cons.
+    - destruct (d b) as [[key r0]|] eqn:E; [|discriminate].
+      destruct (d r0) as [[v r1]|] eqn:E1; [|discriminate].
+      destruct (dec_pairs_indef d k r1) as [[l' r']|] eqn:E2; [|discriminate]. injection H as <- <-.
+      eapply consumes_trans; [apply (Hd _ _ _ E)|].
+      eapply consumes_trans; [apply (Hd _ _ _ E1)|apply (IH _ _ _ E2)].
+  Qed.
+End ItemsConsume.
+
+Lemma dec_chunks_consumes mt k : forall nested b s r, dec_chunks mt k nested b = Some (s, r) -> consumes b r.
+Proof.
+  induction k as [|k IH]; intros nested b s r H; cbn [dec_chunks] in H; [discriminate|].
+  destruct (head_decode b) as [[[[m ai] arg] r0]|] eqn:Eh; [|discriminate].
+  apply head_decode_spec in Eh as (_ & _ & Hc).
+  destruct ((m =? 7) && match arg with ArgIndef => true | ArgN _ => false end).
+  { destruct nested as [|[|n]].
+    - injection H as <- <-. exact Hc.
+    - injection H as <- <-. exact Hc.
+    - eapply consumes_trans; [exact Hc|apply (IH _ _ _ _ H)]. }
+  destruct (m =? mt); [|discriminate].
+  destruct arg as [len|].
+  - destruct (take len r0) as [[c r1]|] eqn:Et; [|discriminate].
+    destruct ((mt =? 3) && negb (utf8_valid c)); [discriminate|].
+    destruct (dec_chunks mt k nested r1) as [[s' r']|] eqn:E2; [|discriminate]. injection H as <- <-.
+    eapply consumes_trans; [exact Hc|]. eapply suffix_consumes_trans; [apply (take_suffix _ _ _ _ Et)|apply (IH _ _ _ _ E2)].
+  - eapply consumes_trans; [exact Hc|apply (IH _ _ _ _ H)].
+Qed.
+
+Lemma simple_value_rest n r v r' : simple_value n r = Some (v, r') -> r' = r.
+Proof.
+  unfold simple_value. destruct (n =? 20); [intros H; injection H as _ <-; reflexivity|].
+  destruct (n =? 21); [intros H; injection H as _ <-; reflexivity|].
+  destruct ((n =? 22) || (n =? 23)); [intros H; injection H as _ <-; reflexivity|discriminate].
+Qed.
+
+Lemma mt_cases mt : mt < 8 -> mt = 0 \/ mt = 1 \/ mt = 2 \/ mt = 3 \/ mt = 4 \/ mt = 5 \/ mt = 6 \/ mt = 7.
+Proof. lia. Qed.
+
+Theorem decode_consumes_gen : forall fuel b v r, cbor_decode fuel b = Some (v, r) -> consumes b r.
+Proof.
+  induction fuel as [|f IH]; intros b v r H; [discriminate|]. cbn [cbor_decode] in H.
+  destruct (head_decode b) as [[[[mt ai] arg] r0]|] eqn:Eh; [|discriminate].
+  apply head_decode_spec in Eh as (Hmt & _ & Hc).
+  destruct (mt_cases mt Hmt) as [->|[->|[->|[->|[->|[->|[->| ->]]]]]]]; cbv beta iota in H.
+  - destruct arg; [|discriminate]. injection H as <- <-. exact Hc.
+  - destruct arg; [|discriminate]. injection H as <- <-. exact Hc.
+  - destruct arg as [n|].
+    + destruct (take n r0) as [[s r']|] eqn:Et; [|discriminate]. injection H as <- <-.
+      eapply consumes_suffix_trans; [exact Hc|apply (take_suffix _ _ _ _ Et)].
+    + destruct (dec_chunks 2 (S (length r0)) 1 r0) as [[s r']|] eqn:Ec; [|discriminate]. injection H as <- <-.
+      eapply consumes_trans; [exact Hc|apply (dec_chunks_consumes _ _ _ _ _ _ Ec)].
+  - destruct arg as [n|].
+    + destruct (take n r0) as [[s r']|] eqn:Et; [|discriminate].
+      destruct (utf8_valid s); [|discriminate]. injection H as <- <-.
+      eapply consumes_suffix_trans; [exact Hc|apply (take_suffix _ _ _ _ Et)].
+    + destruct (dec_chunks 3 (S (length r0)) 1 r0) as [[s r']|] eqn:Ec; [|discriminate]. injection H as <- <-.
+      eapply consumes_trans; [exact Hc|apply (dec_chunks_consumes _ _ _ _ _ _ Ec)].
+  - destruct f as [|f']; [discriminate|]. destruct arg as [n|].
+    + destruct (N.of_nat (length r0) <? n); [discriminate|].
+      destruct (dec_items (cbor_decode (S f')) (N.to_nat n) r0) as [[l r']|] eqn:Ed; [|discriminate].
+      injection H as <- <-. eapply consumes_suffix_trans; [exact Hc|apply (dec_items_suffix _ IH _ _ _ _ Ed)].
+    + destruct (dec_items_indef (cbor_decode (S f')) (S (length r0)) r0) as [[l r']|] eqn:Ed; [|discriminate].
+      injection H as <- <-. eapply consumes_trans; [exact Hc|apply (dec_items_indef_consumes _ IH _ _ _ _ Ed)].
+  - destruct f as [|f']; [discriminate|]. destruct arg as [n|].
+    + destruct (N.of_nat (length r0) <? n); [discriminate|].
+      destruct (dec_pairs (cbor_decode (S f')) (N.to_nat n) r0) as [[l r']|] eqn:Ed; [|discriminate].
+      injection H as <- <-. eapply consumes_suffix_trans; [exact Hc|apply (dec_pairs_suffix _ IH _ _ _ _ Ed)].
+    + destruct (dec_pairs_indef (cbor_decode (S f')) (S (length r0)) r0) as [[l r']|] eqn:Ed; [|discriminate].
+      injection H as <- <-. eapply consumes_trans; [exact Hc|apply (dec_pairs_indef_consumes _ IH _ _ _ _ Ed)].
+  - destruct arg as [t|]; [|discriminate].
+    destruct (bignum_shape t r0) as [[len r1]|] eqn:Eb.
+    + assert (Hs : consumes r0 r1).
+      { unfold bignum_shape in Eb. destruct ((t =? 2) || (t =? 3)); [|discriminate].
+        destruct (head_decode r0) as [[[[m2 ai2] [len2|]] r2]|] eqn:Eh2; try discriminate.
+        destruct ((m2 =? 2) && (len2 <=? 16)); [|discriminate]. injection Eb as <- <-.
+        apply head_decode_spec in Eh2 as (_ & _ & Hc2). exact Hc2. }
+      destruct (take len r1) as [[s r']|] eqn:Et; [|discriminate].
+      assert (Hr : consumes b r').
+      { eapply consumes_trans; [exact Hc|]. eapply consumes_suffix_trans; [exact Hs|apply (take_suffix _ _ _ _ Et)]. }
+      destruct (length (strip_zeros s) <=? 8)%nat; [injection H as <- <-; exact Hr|].
+      destruct ((t =? 3) && (16 <=? length (strip_zeros s))%nat && (128 <=? hd 0 (strip_zeros s))); [discriminate|].
+      injection H as <- <-. exact Hr.
+    + destruct f as [|f']; [discriminate|].
+      destruct (cbor_decode (S f') r0) as [[x r']|] eqn:Ed; [|discriminate]. injection H as <- <-.
+      eapply consumes_trans; [exact Hc|apply (IH _ _ _ Ed)].
+  - destruct arg as [n|]; [|discriminate].
+    destruct (ai =? 25); [injection H as <- <-; exact Hc|].
+    destruct (ai =? 26); [injection H as <- <-; exact Hc|].
+    destruct (ai =? 27); [injection H as <- <-; exact Hc|].
+    apply simple_value_rest in H as ->. exact Hc.
+Qed.
+
+Theorem decode_consumes fuel b v r : cbor_decode fuel b = Some (v, r) -> exists used, b = used ++ r /\ used <> [].
+Proof. apply decode_consumes_gen. Qed.
+
+Corollary decode_progress fuel b v r : cbor_decode fuel b = Some (v, r) -> (length r < length b)%nat.
+Proof. intros H. apply consumes_length, (decode_consumes_gen _ _ _ _ H). Qed.
+
+Corollary decode_nil fuel : cbor_decode fuel [] = None.
+Proof.
+  destruct (cbor_decode fuel []) as [[v r]|] eqn:E; [|reflexivity].
+  apply decode_progress in E. cbn [length] in E. lia.
+Qed.
+
+(** * More fuel and a longer input never change an accepted result *)
+Lemma take_ext n b a r s : take n b = Some (a, r) -> take n (b ++ s) = Some (a, r ++ s).
+Proof. intros H. apply take_spec in H as [-> <-]. rewrite <- app_assoc. apply take_app. Qed.
+
+Lemma head_decode_app b s mt ai arg r : head_decode b = Some (mt, ai, arg, r) ->
+  head_decode (b ++ s) = Some (mt, ai, arg, r ++ s).
+Proof.
+  unfold head_decode. destruct b as [|x r0]; [discriminate|]. cbn [app].
+  destruct (8 <=? x / 32); [discriminate|].
+  destruct (x mod 32 <? 24). { intros H. injection H as <- <- <- <-. reflexivity. }
+  destruct (x mod 32 =? 31). { intros H. injection H as <- <- <- <-. reflexivity. }
+  destruct (28 <=? x mod 32); [discriminate|].
+  destruct (take (arg_len (x mod 32)) r0) as [[a r']|] eqn:Et; [|discriminate].
+  intros H. injection H as <- <- <- <-. rewrite (take_ext _ _ _ _ s Et). reflexivity.
+Qed.
+
+Lemma is_break_app b s r : is_break b = Some r -> is_break (b ++ s) = Some (r ++ s).
+Proof. intros H. apply is_break_spec in H as ->. reflexivity. Qed.
+
+Lemma is_break_app_none b s : b <> [] -> is_break b = None -> is_break (b ++ s) = None.
+Proof. destruct b as [|x r]; [congruence|]. intros _. unfold is_break. cbn [app]. destruct (x =? 255); [discriminate|reflexivity]. Qed.
+
+Section ItemsExt.
+  Variables d d' : bytes -> option (cbor * bytes).
+  Variable s : bytes.
+  Hypothesis Hdd : forall b v r, d b = Some (v, r) -> d' (b ++ s) = Some (v, r ++ s).
+  Hypothesis Hne : d [] = None.
+
+  Lemma dec_items_ext cnt : forall b l r, dec_items d cnt b = Some (l, r) -> dec_items d' cnt (b ++ s) = Some (l, r ++ s).
+  Proof.
+    induction cnt as [|c IH]; intros b l r H; cbn [dec_items] in *.
+    - injection H as <- <-. reflexivity.
+    - destruct (d b) as [[v r0]|] eqn:E; [|discriminate].
+      destruct (dec_items d c r0) as [[l' r']|] eqn:E2; [|discriminate]. injection H as <- <-.
+      rewrite (Hdd _ _ _ E), (IH _ _ _ E2). reflexivity.
+  Qed.
+
+  Lemma dec_pairs_ext cnt : forall b l r, dec_pairs d cnt b = Some (l, r) -> dec_pairs d' cnt (b ++ s) = Some (l, r ++ s).
+  Proof.
+    induction cnt as [|c IH]; intros b l r H; cbn [dec_pairs] in *.
+    - injection H as <- <-. reflexivity.
+    - destruct (d b) as [[k r0]|] eqn:E; [|discriminate].
+      destruct (d r0) as [[v r1]|] eqn:E1; [|discriminate].
+      destruct (dec_pairs d c r1) as [[l' r']|] eqn:E2; [|discriminate]. injection H as <- <-.
+      rewrite (Hdd _ _ _ E), (Hdd _ _ _ E1), (IH _ _ _ E2). reflexivity.
+  Qed.
+
+  Lemma dec_items_indef_ext k : forall k' b l r, (k <= k')%nat ->
+    dec_items_indef d k b = Some (l, r) -> dec_items_indef d' k' (b ++ s) = Some (l, r ++ s).
+  Proof.
+    induction k as [|k IH]; intros k' b l r Hk H; cbn [dec_items_indef] in H; [discriminate|].
+    destruct k' as [|k']; [lia|]. cbn [dec_items_indef].
+    destruct (is_break b) as [r0|] eqn:Eb.
+    - injection H as <- <-. rewrite (is_break_app _ s _ Eb). reflexivity.
+    - destruct (d b) as [[v r0]|] eqn:E; [|discriminate].
+      assert (Hb : b <> []) by (intros ->; congruence).
+      rewrite (is_break_app_none _ s Hb Eb), (Hdd _ _ _ E).
+      destruct (dec_items_indef d k r0) as [[l' r']|] eqn:E2; [|discriminate]. injection H as <- <-.
+      rewrite (IH k' _ _ _ ltac:(lia) E2). reflexivity.
+  Qed.
+
+  Lemma dec_pairs_indef_ext k : forall k' b l r, (k <= k')%nat ->
+    dec_pairs_indef d k b = Some (l, r) -> dec_pairs_indef d' k' (b ++ s) = Some (l, r ++ s).
+  Proof.
+    induction k as [|k IH]; intros k' b l r Hk H; cbn [dec_pairs_indef] in H; [discriminate|].
+    destruct k' as [|k']; [lia|]. cbn [dec_pairs_indef].
+    destruct (is_break b) as [r0|] eqn:Eb.
+    - injection H as <- <-. rewrite (is_break_app _ s _ Eb). reflexivity.
+    - destruct (d b) as [[key r0]|] eqn:E; [|discriminate].
+      assert (Hb : b <> []) by (intros ->; congruence).
+      rewrite (is_break_app_none _ s Hb Eb), (Hdd _ _ _ E).
+      destruct (d r0) as [[v r1]|] eqn:E1; [|discriminate]. rewrite (Hdd _ _ _ E1).
+      destruct (dec_pairs_indef d k r1) as [[l' r']|] eqn:E2; [|discriminate]. injection H as <- <-.
+      rewrite (IH k' _ _ _ ltac:(lia) E2). reflexivity.
+  Qed.
+End ItemsExt.
+
+Lemma dec_chunks_ext mt s k : forall k' nested b c r, (k <= k')%nat ->
+  dec_chunks mt k nested b = Some (c, r) -> dec_chunks mt k' nested (b ++ s) = Some (c, r ++ s).
+Proof.
+  induction k as [|k IH]; intros k' nested b c r Hk H; cbn [dec_chunks] in H; [discriminate|].
+  destruct k' as [|k']; [lia|]. cbn [dec_chunks].
+  destruct (head_decode b) as [[[[m ai] arg] r0]|] eqn:Eh; [|discriminate].
+  rewrite (head_decode_app _ s _ _ _ _ Eh).
+  destruct ((m =? 7) && match arg with ArgIndef => true | ArgN _ => false end).
+  { destruct nested as [|[|n]].
+    - injection H as <- <-. reflexivity.
+    - injection H as <- <-. reflexivity.
+    - apply IH; [lia|exact H]. }
+  destruct (m =? mt); [|discriminate].
+  destruct arg as [len|].
+  - destruct (take len r0) as [[c0 r1]|] eqn:Et; [|discriminate]. rewrite (take_ext _ _ _ _ s Et).
+    destruct ((mt =? 3) && negb (utf8_valid c0)); [discriminate|].
+    destruct (dec_chunks mt k nested r1) as [[s' r']|] eqn:E2; [|discriminate]. injection H as <- <-.
+    rewrite (IH k' _ _ _ _ ltac:(lia) E2). reflexivity.
+  - apply IH; [lia|exact H].
+Qed.
+
+Lemma bignum_shape_app t b s len r : bignum_shape t b = Some (len, r) ->
+  bignum_shape t (b ++ s) = Some (len, r ++ s).
+Proof.
+  unfold bignum_shape. destruct ((t =? 2) || (t =? 3)); [|discriminate].
+  destruct (head_decode b) as [[[[m ai] [n|]] r0]|] eqn:Eh; try discriminate.
+  rewrite (head_decode_app _ s _ _ _ _ Eh).
+  destruct ((m =? 2) && (n <=? 16)); [|discriminate]. intros H. injection H as <- <-. reflexivity.
+Qed.
+
+Lemma bignum_shape_app_none t b s h : head_decode b = Some h -> bignum_shape t b = None ->
+  bignum_shape t (b ++ s) = None.
+Proof.
+  unfold bignum_shape. destruct ((t =? 2) || (t =? 3)); [|reflexivity].
+  destruct h as [[[m ai] arg] r0]. intros Eh. rewrite Eh, (head_decode_app _ s _ _ _ _ Eh).
+  destruct arg as [n|]; [|reflexivity]. destruct ((m =? 2) && (n <=? 16)); [discriminate|reflexivity].
+Qed.
+
+Lemma decode_head_some fuel b v r : cbor_decode fuel b = Some (v, r) -> exists h, head_decode b = Some h.
+Proof.
+  destruct fuel as [|f]; [discriminate|]. cbn [cbor_decode].
+  destruct (head_decode b) as [h|]; [eauto|discriminate].
+Qed.
+
+Theorem decode_mono : forall f f' b v r s, (f <= f')%nat ->
+  cbor_decode f b = Some (v, r) -> cbor_decode f' (b ++ s) = Some (v, r ++ s).
+Proof.
+  induction f as [|f IH]; intros g b v r s Hfg H; [discriminate|].
+  destruct g as [|g]; [lia|]. apply Nat.succ_le_mono in Hfg.
+  cbn [cbor_decode] in H |- *.
+  destruct (head_decode b) as [[[[mt ai] arg] r0]|] eqn:Eh; [|discriminate].
+  rewrite (head_decode_app _ s _ _ _ _ Eh).
+  apply head_decode_spec in Eh as (Hmt & _ & Hc).
+  assert (Hlen : (length r0 <= length (r0 ++ s))%nat) by (rewrite app_length; lia).
+  destruct (mt_cases mt Hmt) as [->|[->|[->|[->|[->|[->|[->| ->]]]]]]]; cbv beta iota in H |- *.
+  - destruct arg; [|discriminate]. injection H as <- <-. reflexivity.
+  - destruct arg; [|discriminate]. injection H as <- <-. reflexivity.
+  - destruct arg as [n|].
+    + destruct (take n r0) as [[c r']|] eqn:Et; [|discriminate]. injection H as <- <-.
+      rewrite (take_ext _ _ _ _ s Et). reflexivity.
+    + destruct (dec_chunks 2 (S (length r0)) 1 r0) as [[c r']|] eqn:Ec; [|discriminate]. injection H as <- <-.
+      rewrite (dec_chunks_ext 2 s (S (length r0)) (S (length (r0 ++ s))) _ _ _ _ ltac:(lia) Ec). reflexivity.
+  - destruct arg as [n|].
+    + destruct (take n r0) as [[c r']|] eqn:Et; [|discriminate]. rewrite (take_ext _ _ _ _ s Et).
+      destruct (utf8_valid c); [|discriminate]. injection H as <- <-. reflexivity.
+    + destruct (dec_chunks 3 (S (length r0)) 1 r0) as [[c r']|] eqn:Ec; [|discriminate]. injection H as <- <-.
+      rewrite (dec_chunks_ext 3 s (S (length r0)) (S (length (r0 ++ s))) _ _ _ _ ltac:(lia) Ec). reflexivity.
+  - destruct f as [|f0]; [discriminate|]. destruct g as [|g0]; [lia|]. cbv beta iota.
+    assert (Hdd : forall b v r, cbor_decode (S f0) b = Some (v, r) -> cbor_decode (S g0) (b ++ s) = Some (v, r ++ s))
+      by (intros; apply (IH (S g0)); assumption).
+    destruct arg as [n|].
+    + destruct (N.ltb_spec (N.of_nat (length r0)) n) as [Hn|Hn]; [discriminate|].
+      replace (N.of_nat (length (r0 ++ s)) <? n) with false by lia.
+      destruct (dec_items (cbor_decode (S f0)) (N.to_nat n) r0) as [[l r']|] eqn:Ed; [|discriminate].
+      injection H as <- <-. rewrite (dec_items_ext _ _ s Hdd _ _ _ _ Ed). reflexivity.
+    + destruct (dec_items_indef (cbor_decode (S f0)) (S (length r0)) r0) as [[l r']|] eqn:Ed; [|discriminate].
+      injection H as <- <-.
+      rewrite (dec_items_indef_ext _ _ s Hdd (decode_nil _) (S (length r0)) (S (length (r0 ++ s))) _ _ _ ltac:(lia) Ed). reflexivity.
+  - destruct f as [|f0]; [discriminate|]. destruct g as [|g0]; [lia|]. cbv beta iota.
+    assert (Hdd : forall b v r, cbor_decode (S f0) b = Some (v, r) -> cbor_decode (S g0) (b ++ s) = Some (v, r ++ s))
+      by (intros; apply (IH (S g0)); assumption).
+    destruct arg as [n|].
+    + destruct (N.ltb_spec (N.of_nat (length r0)) n) as [Hn|Hn]; [discriminate|].
+      replace (N.of_nat (length (r0 ++ s)) <? n) with false by lia.
+      destruct (dec_pairs (cbor_decode (S f0)) (N.to_nat n) r0) as [[l r']|] eqn:Ed; [|discriminate].
+      injection H as <- <-. rewrite (dec_pairs_ext _ _ s Hdd _ _ _ _ Ed). reflexivity.
+    + destruct (dec_pairs_indef (cbor_decode (S f0)) (S (length r0)) r0) as [[l r']|] eqn:Ed; [|discriminate].
+      injection H as <- <-.
+      rewrite (dec_pairs_indef_ext _ _ s Hdd (decode_nil _) (S (length r0)) (S (length (r0 ++ s))) _ _ _ ltac:(lia) Ed). reflexivity.
+  - destruct arg as [t|]; [|discriminate].
+    destruct (bignum_shape t r0) as [[len r1]|] eqn:Eb.
+    + rewrite (bignum_shape_app _ _ s _ _ Eb).
+      destruct (take len r1) as [[c r']|] eqn:Et; [|discriminate]. rewrite (take_ext _ _ _ _ s Et).
+      destruct (length (strip_zeros c) <=? 8)%nat; [injection H as <- <-; reflexivity|].
+      destruct ((t =? 3) && (16 <=? length (strip_zeros c))%nat && (128 <=? hd 0 (strip_zeros c))); [discriminate|].
+      injection H as <- <-. reflexivity.
+    + destruct f as [|f0]; [discriminate|]. destruct g as [|g0]; [lia|].
+      destruct (cbor_decode (S f0) r0) as [[x r']|] eqn:Ed; [|discriminate]. injection H as <- <-.
+      destruct (decode_head_some _ _ _ _ Ed) as [h Hh].
+      rewrite (bignum_shape_app_none _ _ s _ Hh Eb), (IH (S g0) _ _ _ s Hfg Ed). reflexivity.
+  - destruct arg as [n|]; [|discriminate].
+    destruct (ai =? 25); [injection H as <- <-; reflexivity|].
+    destruct (ai =? 26); [injection H as <- <-; reflexivity|].
+    destruct (ai =? 27); [injection H as <- <-; reflexivity|].
+    unfold simple_value in *.
+    destruct (n =? 20); [injection H as <- <-; reflexivity|].
+    destruct (n =? 21); [injection H as <- <-; reflexivity|].
+    destruct ((n =? 22) || (n =? 23)); [injection H as <- <-; reflexivity|discriminate].
+Qed.
+
+Corollary decode_fuel_mono f f' b v r : (f <= f')%nat -> cbor_decode f b = Some (v, r) -> cbor_decode f' b = Some (v, r).
+Proof. intros Hf H. pose proof (decode_mono f f' b v r [] Hf H) as M. rewrite !app_nil_r in M. exact M. Qed.
+
+Corollary decode_app fuel b v r s : cbor_decode fuel b = Some (v, r) -> cbor_decode fuel (b ++ s) = Some (v, r ++ s).
+Proof. apply decode_mono. lia. Qed.
+
+(** every strict prefix of an encoding is rejected (truncation is always an error) *)
+Corollary decode_strict_prefix_none fuel v p s : cbor_wf v = true -> (depth v < fuel)%nat ->
+  cbor_encode v = p ++ s -> s <> [] -> cbor_decode fuel p = None.
+Proof.
+  intros Hw Hd E Hs. destruct (cbor_decode fuel p) as [[w r]|] eqn:D; [|reflexivity]. exfalso.
+  pose proof (decode_app _ _ _ _ s D) as D'. rewrite <- E in D'.
+  pose proof (decode_encode v [] fuel Hw Hd) as D2. rewrite app_nil_r in D2. rewrite D2 in D'.
+  injection D' as _ E2. destruct r; destruct s; try discriminate. congruence.
+Qed.
+
+(** * Decidable equality *)
+Lemma cbor_eqb_true : forall a b, cbor_eqb a b = true -> a = b.
+Proof.
+  induction a as [z|s|s|l IH|l IH|t x IH|c| | |n|w bits] using cbor_ind';
+    intros [z'|s'|s'|l'|l'|t' x'|c'| | |n'|w' bits']; try discriminate; cbn [cbor_eqb]; intros H.
+  - apply Z.eqb_eq in H. congruence.
+  - apply beq_eq in H. congruence.
+  - apply beq_eq in H. congruence.
+  - f_equal. revert l' H. induction IH as [|x l Hx _ IHl]; intros [|y l'] H; try discriminate; [reflexivity|].
+    apply andb_true_iff in H as [H1 H2]. f_equal; [apply Hx, H1|apply IHl, H2].
+  - f_equal. revert l' H. induction IH as [|[k x] l [Hk Hx] _ IHl]; intros [|[k' y] l'] H; try discriminate; [reflexivity|].
+    cbn [fst snd] in *.
+    apply andb_true_iff in H as [H1 H2]. apply andb_true_iff in H1 as [H0 H1].
+    f_equal; [f_equal; [apply Hk, H0|apply Hx, H1]|apply IHl, H2].
+  - apply andb_true_iff in H as [H1 H2]. apply N.eqb_eq in H1. apply IH in H2. congruence.
+  - apply Bool.eqb_prop in H. congruence.
+  - reflexivity.
+  - reflexivity.
+  - apply N.eqb_eq in H. congruence.
+  - apply andb_true_iff in H as [H1 H2]. apply N.eqb_eq in H1, H2. congruence.
+Qed.
+
+Lemma cbor_eqb_refl : forall a, cbor_eqb a a = true.
+Proof.
+  induction a as [z|s|s|l IH|l IH|t x IH|c| | |n|w bits] using cbor_ind'; cbn [cbor_eqb].
+  - apply Z.eqb_refl.
+  - apply beq_refl.
+  - apply beq_refl.
+  - induction IH as [|x l Hx _ IHl]; [reflexivity|]. rewrite Hx, IHl. reflexivity.
+  - induction IH as [|[k x] l [Hk Hx] _ IHl]; [reflexivity|]. cbn [fst snd] in *. rewrite Hk, Hx, IHl. reflexivity.
+  - rewrite N.eqb_refl, IH. reflexivity.
+  - destruct c; reflexivity.
+  - reflexivity.
+  - reflexivity.
+  - apply N.eqb_refl.
+  - rewrite !N.eqb_refl. reflexivity.
+Qed.
+
+Theorem cbor_eqb_eq a b : cbor_eqb a b = true <-> a = b.
+Proof. split; [apply cbor_eqb_true|intros ->; apply cbor_eqb_refl]. Qed.
